@@ -45,6 +45,11 @@ def solve_castle_wall(height, width, arrow, inside):
                 )
     for y in range(height):
         for x in range(width):
+            if height == 1 or width == 1:
+                # no loop fits on such a board, so every cell is outside
+                if inside[y][x] is True:
+                    solver.ensure(False)
+                continue
             if inside[y][x] is True:
                 solver.ensure(is_inside[max(0, y - 1), max(0, x - 1)])
             elif inside[y][x] is False:
